@@ -137,6 +137,11 @@ RAW = [
      "REF:(h(e.a), 100)"),
     ("W = 5\ndef g(v): return v + W\ndef build(ds):\n    def inner(W):\n        return ds.Select(\n            lambda e: e.jets.Select(lambda j: g(j.pt) + W)\n        )\n    return inner(100)\n",
      "REF:e.jets.Select(lambda j: g(j.pt) + 100)"),
+    # a helper defined INSIDE a function, with a multi-line string whose continuation lines are indented less than the def
+    ("def build(ds):\n    def h(x):\n        return (x, \"\"\"a\n  bcdefghijkl\nxyzuvwrstq\"\"\")\n    return ds.Select(\n        lambda e: h(e.a)\n    )\n",
+     "REF:(e.a, 'a\\n  bcdefghijkl\\nxyzuvwrstq')"),
+    ("class K:\n    @staticmethod\n    def build(ds):\n        def h(x):\n            return (\"\"\"p\n q\n        r\"\"\", x)\n        return ds.Select(\n            lambda e: h(e.a)\n        )\nbuild = K.build\n",
+     "REF:('p\\n q\\n        r', e.a)"),
     # a comprehension WITH a filter inside a helper; the call site's variable is spelled like the comprehension's target
     ("def h(pt, near): return [j.pt - pt for j in near if j.pt > 1]\n", "e.jets.Select(lambda j: h(j.pt, e.jets))"),
     ("def h(pt, near): return [j.pt - pt for j in near if j.pt > pt if j.eta > 0]\n", "e.jets.Select(lambda j: h(j.pt, e.jets))"),
@@ -243,7 +248,7 @@ class C05(Check):
             text = body  # the helper definitions written out in full
             if text.startswith("FLAT:"):
                 flat, text = True, text[5:]
-            own_build = "def build(" in text  # the case brings its own build(); the site is the REFERENCE body (locals written out)
+            own_build = "def build(" in text or "build = " in text  # the case brings its own build(); the site is the REFERENCE body (locals written out)
         elif o is None:
             text = helper_def("h", params, body, form)
         else:
